@@ -310,6 +310,19 @@ def _is_dim_name(t):
         return True
     if t[0] == 'item' and t[1][0] == 'call' and T.call_name(t[1]) == '_get_axis_info' and t[2] == 1:
         return True
+    if t[0] == 'sub' and t[1][0] == 'call' and T.call_name(t[1]) == '_get_axis_info' and t[2] == const(1):
+        return True
+    return False
+
+
+def _is_position(t, AXIS):
+    """the caller's raw axis argument, or a position computed at Dataset level"""
+    if t == AXIS:
+        return True
+    if t[0] in ('item', 'sub') and t[1][0] == 'call' and T.call_name(t[1]) == '_get_axis_info' and t[2] in (0, const(0)):
+        return True
+    if t[0] == 'call' and T.call_name(t) == 'index':
+        return True
     return False
 
 
@@ -413,7 +426,10 @@ def rule_reindex(ctx):
                              '(wrong/missing: %s)' % bad, node=e.node)
                 okk = False
             ax_arg = got.get('axis')
-            if ax_arg is None or not _is_dim_name(ax_arg):
+            if ax_arg is not None and not _is_dim_name(ax_arg) and not _is_position(ax_arg, AXIS):
+                ctx.undecide('R6', 'fill axis %s is neither recognisably a dimension name nor a position' % T.show(ax_arg)[:80])
+                okk = False
+            elif ax_arg is None or not _is_dim_name(ax_arg):
                 ctx.violated('R6', fi, 'fill axis', 'the per-variable fill is addressed with axis=%s: an integer position given to Dataset.reindex_axis refers to the dataset\'s '
                              'dimension order, but each variable interprets it against its own dims, so the fill value lands on another dimension of variables whose '
                              'dimension order differs (the dimension name must be passed)' % (T.show(ax_arg) if ax_arg else None), node=e.node)
